@@ -458,6 +458,14 @@ class Repository:
                 f'of the allowed types ({type_names})'
             )
 
+    def _adapter_from_settings(self, kind, /, **settings):
+        adapter_type, adapter_args = adapters.from_config(**settings)
+        if not issubclass(adapter_type, kind):
+            raise exceptions.ReplicatError(
+                f'{adapter_type.__name__} cannot be used as {kind.__name__}'
+            )
+        return adapter_type, adapter_args
+
     def _make_config(self, *, settings=None):
         if settings is None:
             settings = {}
@@ -467,19 +475,25 @@ class Repository:
         # Hashing
         hashing_settings = settings.get('hashing', {})
         hashing_settings.setdefault('name', self.DEFAULT_HASHER_NAME)
-        hasher_type, hasher_args = adapters.from_config(**hashing_settings)
+        hasher_type, hasher_args = self._adapter_from_settings(
+            adapters.HashAdapter, **hashing_settings
+        )
         config['hashing'] = dict(hasher_args, name=hasher_type.__name__)
 
         # Deduplication params
         chunking_settings = settings.get('chunking', {})
         chunking_settings.setdefault('name', self.DEFAULT_CHUNKER_NAME)
-        chunker_type, chunker_args = adapters.from_config(**chunking_settings)
+        chunker_type, chunker_args = self._adapter_from_settings(
+            adapters.ChunkerAdapter, **chunking_settings
+        )
         config['chunking'] = dict(chunker_args, name=chunker_type.__name__)
 
         if (encryption_settings := settings.get('encryption', {})) is not None:
             cipher_settings = encryption_settings.get('cipher', {})
             cipher_settings.setdefault('name', self.DEFAULT_CIPHER_NAME)
-            cipher_type, cipher_args = adapters.from_config(**cipher_settings)
+            cipher_type, cipher_args = self._adapter_from_settings(
+                adapters.CipherAdapter, **cipher_settings
+            )
             config['encryption'] = {
                 'cipher': dict(cipher_args, name=cipher_type.__name__)
             }
@@ -512,8 +526,8 @@ class Repository:
         # KDF for user personal data
         user_kdf_settings = encryption_settings.get('kdf', {})
         user_kdf_settings.setdefault('name', self.DEFAULT_USER_KDF_NAME)
-        user_kdf_type, user_kdf_args = adapters.from_config(
-            **user_kdf_settings, length=cipher.key_bytes
+        user_kdf_type, user_kdf_args = self._adapter_from_settings(
+            adapters.KDFAdapter, **user_kdf_settings, length=cipher.key_bytes
         )
         user_kdf = user_kdf_type(**user_kdf_args)
 
